@@ -81,9 +81,10 @@ theorem adaptNode_rename (F : Facts) (f : Nat → Nat) (ctx opsets : List Req) :
     simp only [renameN, adaptNode, List.map_cons, Entry.view, hd]
     congr 1
     cases k with
-    | func d v => rfl
+    | func d v nm => rfl
     | internal => exact adaptBodies_rename F f ctx subs
     | intro => exact adaptBodies_rename F f ctx subs
+    | introOpt => exact adaptBodies_rename F f ctx subs
     | inline a b => exact adaptBodies_rename F f ctx subs
     | op d o v => exact adaptBodies_rename F f ctx subs
 theorem adaptBodies_rename (F : Facts) (f : Nat → Nat) (ctx : List Req) : ∀ gs : List PGraph,
